@@ -292,7 +292,7 @@ def ob_aggregated(imp, agg, k, batch, npts):
     return run
 
 
-def obligations(tier, seed):
+def _obligations(tier, seed):
     obs = []
     rs = (1, 2, 3, 4) if tier == "quick" else (1, 2, 3, 4, 5, 6)
     Bs = (1, 2) if tier == "quick" else (1, 2, 3)
@@ -321,3 +321,8 @@ def obligations(tier, seed):
                         continue
                     obs.append((f"aggregated/{imp}/{agg}/k{k}/{'batch' if batch else 'scalar'}", ob_aggregated(imp, agg, k, batch, npts)))
     return obs
+
+
+def obligations(tier, seed):
+    from . import conform
+    return _obligations(tier, seed) + conform.obligations(PROPERTY, tier)
